@@ -122,6 +122,9 @@ class State(_train.Listener):
             ctx.violation("recorded-indices", "batch-indices-not-recorded", observed={"recorded": rec, "true_ids": ids},
                           expected="equal")
             return
+        if not (np.all(np.isfinite(self.gem_grad)) and np.all(np.isfinite(y_pred)) and np.all(np.isfinite(received))):
+            ctx.count("nonfinite_gradient_skipped")    # C17 / C02's business
+            return
         if self.gem_grad.shape != received.shape:
             ctx.violation("constraint-gradient", "constraint-grad-shape", observed=list(received.shape),
                           expected=list(self.gem_grad.shape))
